@@ -79,7 +79,7 @@ def run_case(ctx, g, rng):
             c, how = gen.build(api, recs, d, rng)
     sp = spec.SpecConverter(recs, d)
     S.counters[f"wl:build:{how}"] += 1
-    prefixes = [p for r in recs for p in spec.all_p(r)] + ["nope", "NOPE" + d[:0], rng.choice(gen.UNICODE), gen.ORIG_PREFIX]
+    prefixes = [p for r in recs for p in spec.all_p(r)] + ["nope", "NOPE" + d[:0], rng.choice(gen.UNICODE), *gen.SPECIAL_PREFIXES]
     prefixes += [p.swapcase() for p in prefixes[:3]] + [p[:-1] for p in prefixes[:3] if p]
     ids = rng.sample(gen.IDS, k=5) + [d, "x" + d + "y", d + "x", rng.choice(gen.UNICODE), ""]
     seen = set()
